@@ -574,6 +574,7 @@ class Spec:
                          "Mhd.C19.roundtrip_pingpong", "Mhd.C19.roundtrip_close", "Mhd.C19.roundtrip_close_noreason",
                          "Mhd.C19.roundtrip_fragmented_assembled", "Mhd.C19.roundtrip_fragmented_fragments",
                          "Mhd.C19.fragments_binary", "Mhd.C19.fragments_lossless",
+                         "Mhd.C19.encode_preserves_decoder_state", "Mhd.C19.decode_interleaved_with_encode_independent",
                          "Mhd.C19.decode_no_fault",
                          "Mhd.C19.feed_no_fault", "Mhd.C19.init_ready", "Mhd.C19.reserved_bits", "Mhd.C19.unknown_opcode",
                          "Mhd.C19.fragmented_control", "Mhd.C19.bad_frame_sequence", "Mhd.C19.wrong_mask_or_control_length",
@@ -1280,6 +1281,144 @@ class Spec:
         fs["receiver_scripts"] = stats["scripts"] - before
         stats["fragmented"] = fs
 
+    # ---- encoder calls on the same stream between the decode calls of a split incoming frame
+    def interleaved_encode_cases(self, ctx, n, failures, stats):
+        """theorems encode_preserves_decoder_state / decode_interleaved_with_encode_independent: one stream
+        object receives a valid frame sequence in pieces and encodes frames of its own in between.
+        Oracles: (a) the decoder events are those of the one-piece decode of the same bytes, (b) white box:
+        the decoder's fields (`state`) are the same before and after every encoder call, (c) every encoded
+        frame is the RFC 6455 reference framing with the next key of the rng script, (d) model = code."""
+        rng = ctx.rng
+        st = {"cases": 0, "client": 0, "server": 0, "encoder_calls": 0, "calls_inside_a_frame_payload": 0,
+              "calls_inside_a_frame_header": 0, "calls_at_frame_boundary": 0, "calls_inside_masked_payload": 0,
+              "kinds": {}, "want_fragments": 0, "state_dumps": 0}
+        jobs = []
+        for i in range(n):
+            client = rng.random() < 0.6          # the receiver's role; only a client draws keys when it encodes
+            flags = (CLIENT if client else 0) | (WANTFRAG if rng.random() < 0.4 else 0) | (GENCLOSE if (not client and rng.random() < 0.3) else 0)
+            msgs = gen_messages(rng, False)
+            firstclose = next((j for j, m in enumerate(msgs) if m.kind == "close"), None)
+            if firstclose is not None:
+                msgs = msgs[:firstclose + 1]
+            if i % 3 == 0:                       # make sure there is a frame with a payload worth cutting
+                msgs.insert(0, Msg(rng.choice(["text", "bin", "ping"]), rand_text(rng, rng.choice([6, 14, 40, 125]))))
+                if msgs[0].kind == "bin" and rng.random() < 0.5:
+                    msgs[0] = Msg("bin", rand_text(rng, 200))
+            frames = frames_of(rng, msgs, masked=not client)
+            stream = b"".join(f for _, f in frames)
+            if len(stream) < 2:
+                continue
+            # where each position lies: header / payload / boundary
+            kind_at, pos = {}, 0
+            for _, f in frames:
+                l7 = f[1] & 0x7F
+                hl = 2 + (2 if l7 == 126 else 8 if l7 == 127 else 0) + (4 if f[1] & 0x80 else 0)
+                for c in range(pos + 1, pos + len(f)):
+                    kind_at[c] = "header" if c - pos < hl else "payload"
+                kind_at[pos + len(f)] = "boundary"
+                pos += len(f)
+            r = rng.random()
+            if r < 0.5:
+                payload_cuts = [c for c, k in kind_at.items() if k == "payload"]
+                cuts = sorted(set(rng.sample(payload_cuts, min(len(payload_cuts), rng.choice([1, 1, 2, 3]))))) if payload_cuts else [1]
+            elif r < 0.8:
+                cuts = sorted(set(rng.randrange(1, len(stream)) for _ in range(rng.choice([1, 2, 4]))))
+            else:
+                cuts = list(range(1, min(len(stream), 60)))
+            cuts = [c for c in cuts if 0 < c < len(stream)]
+            chunks = chunks_of(stream, cuts)
+            keys = []
+            lines = ["init %d 0 %d %d" % (flags, 1 << 40, rng.randrange(1, 5))]
+            script_keys = b""
+            body, expect_frames, where = [], [], []
+            for ci, ch in enumerate(chunks):
+                body.append("feed " + hx(ch))
+                if ci == len(chunks) - 1:
+                    break
+                if rng.random() < (0.85 if len(chunks) <= 4 else 0.3):
+                    for _ in range(rng.choice([1, 1, 2])):
+                        key = bytes(rng.randrange(1, 256) for _ in range(4)) if rng.random() < 0.9 else bytes(4)
+                        k = key if client else None
+                        which = rng.choice(["pong", "ping", "text", "bin", "close", "text-frag"])
+                        pl = rand_text(rng, rng.choice([0, 1, 5, 30]))
+                        if which in ("ping", "pong"):
+                            op, fr = "enc_%s %s" % (which, hx(pl)), ref_frame(9 if which == "ping" else 10, True, pl, k)
+                        elif which == "text":
+                            op, fr = "enc_text %s 0 -" % hx(pl), ref_frame(1, True, pl, k)
+                        elif which == "text-frag":
+                            op, fr = "enc_text %s 1 0" % hx(pl), ref_frame(1, False, pl, k)
+                        elif which == "bin":
+                            op, fr = "enc_bin %s 0" % hx(pl), ref_frame(2, True, pl, k)
+                        else:
+                            op, fr = "enc_close 1000 %s" % hx(pl), ref_frame(8, True, (1000).to_bytes(2, "big") + pl, k)
+                        if client:
+                            script_keys += key
+                        body += ["state", op, "state"]
+                        expect_frames.append((len(lines) + 1 + len(body) - 2, fr))      # index of the enc line in the final script
+                        where.append(kind_at.get(cuts[ci], "payload"))
+                        st["kinds"][which] = st["kinds"].get(which, 0) + 1
+            script = lines + ["rng " + hx(script_keys)] + body
+            jobs.append((flags, client, stream, script, expect_frames, where))
+        scripts = [j[3] for j in jobs]
+        base = [[j[3][0], "feed " + hx(j[2])] for j in jobs]
+        hres, hrc, herr, hn = self.run_scripts(scripts)
+        mres, _, _, _ = self.run_scripts(scripts, self.driver)
+        bres, brc, berr, _ = self.run_scripts(base)
+        if hrc != 0 or brc != 0:
+            bad = self.locate_abort(scripts, hn) if hrc != 0 else None
+            failures.append(vlib.Failure("sanitizer", "ws: sanitizer report: " + self.san_kind(herr if hrc else berr),
+                                         (herr if hrc else berr)[-1800:], scripts[bad] if bad is not None else [], ENGINE))
+            return
+        for (flags, client, stream, script, expect_frames, where), h, m, b in zip(jobs, hres, mres, bres):
+            st["cases"] += 1
+            st["client" if client else "server"] += 1
+            st["want_fragments"] += bool(flags & WANTFRAG)
+            st["encoder_calls"] += len(expect_frames)
+            for w in where:
+                st["calls_inside_a_frame_payload" if w == "payload" else "calls_inside_a_frame_header" if w == "header" else "calls_at_frame_boundary"] += 1
+                st["calls_inside_masked_payload"] += (w == "payload" and not client)
+            stats["direct_ops"] += len(script)
+            if h != m:
+                j = next((j for j in range(len(script)) if j >= len(m) or j >= len(h) or m[j] != h[j]), 0)
+                failures.append(vlib.Failure("diff" if not (j < len(m) and m[j].startswith("fault")) else "model",
+                                             "ws: model/code differ on %s (encode between decode calls)" % script[j].split()[0],
+                                             "line %d `%s`: code `%s` model `%s`" % (j, script[j][:100], (h[j] if j < len(h) else "")[:300],
+                                                                                      (m[j] if j < len(m) else "")[:300]), script, ENGINE))
+            if len(h) < len(script):
+                continue
+            # (b) decoder state untouched by every encoder call
+            for j, line in enumerate(script):
+                if line.startswith("enc_") and script[j - 1] == "state" and script[j + 1] == "state":
+                    st["state_dumps"] += 2
+                    if h[j - 1] != h[j + 1]:
+                        failures.append(vlib.Failure("oracle", "ws: %s changes the decoder state of the stream" % line.split()[0],
+                                                     "before `%s` after `%s` (role %s)" % (h[j - 1][:300], h[j + 1][:300], "client" if client else "server"),
+                                                     script[:j + 2], ENGINE))
+                        break
+            # (c) the encoded frames
+            for j, fr in expect_frames:
+                want = "e 0 " + show_payload(fr)
+                if h[j].split(" step=")[0] != want:
+                    failures.append(vlib.Failure("oracle", "ws: reference disagrees on %s" % script[j].split()[0],
+                                                 "`%s`: code `%s`, reference `%s` (encode between decode calls)" % (script[j][:120], h[j][:200], want[:200]),
+                                                 script, ENGINE))
+                    break
+            # (a) same decoder events as the one-piece decode
+            ev, problems, validity = events_of([l for l, s_ in zip(h, script) if s_.startswith("feed")])
+            ev1, _, validity1 = events_of(b[1:])
+            for p in problems:
+                failures.append(vlib.Failure("oracle", "ws: " + re.sub(r"[0-9a-f]{4,}", "X", p), p, script, ENGINE))
+            if ev != ev1 or validity != validity1:
+                d = next((j for j in range(max(len(ev), len(ev1))) if j >= len(ev) or j >= len(ev1) or ev[j] != ev1[j]), None)
+                one = ev1[d] if d is not None and d < len(ev1) else ("end", "")
+                two = ev[d] if d is not None and d < len(ev) else ("end", "")
+                failures.append(vlib.Failure("oracle", "ws: encoder calls between decode calls change the decoder's result: one call gives %s, with encoder calls %s (%s)" %
+                                             (status_class(one[0]) if one[0] != "end" else "end", status_class(two[0]) if two[0] != "end" else "end",
+                                              "client" if client else "server"),
+                                             "stream %s flags=%d: in one call %s (validity %s); in pieces with encoder calls in between %s (validity %s)" %
+                                             (stream.hex()[:300], flags, ev1[-3:], validity1, ev[-3:], validity), script, ENGINE))
+        stats["interleaved_encode"] = st
+
     def alignment_run(self, ctx, stats):
         """separate small run with -fsanitize=alignment: findings are reported, they do not fail the check"""
         k = b"\x01\x02\x03\x04"
@@ -1328,6 +1467,7 @@ class Spec:
         self.accept_cases(ctx, failures, stats)
         self.roundtrip_cases(ctx, 20000 if thorough else 1500, failures, stats)
         self.fragmented_roundtrip_cases(ctx, 12000 if thorough else 700, failures, stats)
+        self.interleaved_encode_cases(ctx, 20000 if thorough else 1500, failures, stats)
         self.alignment_run(ctx, stats)
         labels = {}
         for c in cases:
@@ -1352,6 +1492,7 @@ class Spec:
                "frame_outcomes_one_call": stats["status"], "header_pair_cases": len(hp), "direct_op_lines": stats["direct_ops"],
                "utf8_inputs": stats.get("utf8_inputs", 0), "accept_keys": stats.get("accept_keys", 0), "roundtrips": stats["roundtrips"],
                "fragmented_messages_in_unmutated_stream_cases": getattr(self, "stream_frag_features", {}),
+               "encoder_calls_between_decode_calls": stats.get("interleaved_encode", {}),
                "fragmented_message_roundtrips": stats.get("fragmented", {}), "message_level_mismatches": stats.get("msg_mismatch", 0),
                "corpus": len(corpus), "model_code_differences": stats["diff"], "split_dependences": stats["split_dep"],
                "reference_mismatches": stats["ref_mismatch"], "sanitizer_reports": stats["sanitizer"],
